@@ -878,21 +878,35 @@ fn enc_parse_error(e: &wirefilter::ParseError<'_>) -> Sexp {
 }
 
 /// (parse scheme settings #text) / (parse-value ...) -> (ok ast) | (err Kind line col len)
+/// The limits are configured in both ways the API offers - a ParserSettings value handed to
+/// `parser_with_settings`, and the setters of a default parser - and the two parsers must agree.
 pub fn run_parse(args: &[Sexp], value: bool) -> Option<Sexp> {
     let [sch, st, text] = args else { return None };
     let info = dec_scheme(sch)?;
     let settings = dec_settings(st)?;
     let text = String::from_utf8(text.as_bytes()?.to_vec()).ok()?;
-    let parser = info.scheme.parser_with_settings(settings);
-    if value {
-        match parser.parse_value(&text) {
-            Ok(a) => Some(Sexp::tagged("ok", vec![enc_iexpr(&info, a.expression(), "field")])),
-            Err(e) => Some(enc_parse_error(&e)),
+    let run = |parser: &wirefilter::FilterParser<'_>| -> Sexp {
+        if value {
+            match parser.parse_value(&text) {
+                Ok(a) => Sexp::tagged("ok", vec![enc_iexpr(&info, a.expression(), "field")]),
+                Err(e) => enc_parse_error(&e),
+            }
+        } else {
+            match parser.parse(&text) {
+                Ok(a) => Sexp::tagged("ok", vec![enc_lexpr(&info, a.expression())]),
+                Err(e) => enc_parse_error(&e),
+            }
         }
+    };
+    let by_settings = info.scheme.parser_with_settings(settings.clone());
+    let mut by_setters = info.scheme.parser();
+    by_setters.set_max_nesting_depth(settings.max_nesting_depth);
+    by_setters.wildcard_set_star_limit(settings.wildcard_star_limit);
+    let a = run(&by_settings);
+    let b = run(&by_setters);
+    if a == b {
+        Some(a)
     } else {
-        match parser.parse(&text) {
-            Ok(a) => Some(Sexp::tagged("ok", vec![enc_lexpr(&info, a.expression())])),
-            Err(e) => Some(enc_parse_error(&e)),
-        }
+        Some(Sexp::tagged("configuration-paths-differ", vec![a, b]))
     }
 }
